@@ -64,7 +64,7 @@ def plan(tier, seed):
   # becomes a sum), and tiny gradients after ordinary ones (the
   # preconditioned gradient's norm is then ~1e-12)
   for gt in [1, 2, 3, 4, 5, 6]:
-    for var in ["de1e-3", "b2=1", "tiny"]:
+    for var in ["de1e-3", "b2=1", "tiny", "coupled_lr", "sharded"]:
       for start in ([2] if tier == "quick" else [0, 2]):
         tasks.append({"name": "ds/g%d/full/start%d/none/%s" % (gt, start,
                                                                var),
@@ -143,6 +143,13 @@ def run_ds(task, acc):
     cfg["beta2"] = b2
   elif var == "tiny":
     events = ["gA", "tiny", "g0"]
+  elif var == "coupled_lr":
+    # the learning rate is part of the grafting optimizer's step
+    cfg["decoupled_learning_rate"] = False
+    cfg["learning_rate"] = 0.25
+  elif var == "sharded":
+    mode = "sharded"
+  lr_in_graft = 0.25 if var == "coupled_lr" else 1.0
   runner = ds.Runner(cfg, SHAPES, mode)
   alpha = ds.grad_trees(SHAPES, events, (0, 8), task["seed"])
   full = dict(ref.BASE, **cfg)
@@ -185,6 +192,7 @@ def run_ds(task, acc):
         for n in SHAPES:
           g = alpha[ev][n].astype(np.float64)
           gstep, accs2[n] = graft_step(task["graft"], g, accs[n], b2, de)
+          gstep = gstep * lr_in_graft
           got = -np.asarray(u[n], np.float64)
           lf = leaves[n]
           case = dict(case0, history=list(h2), leaf=n)
@@ -203,7 +211,7 @@ def run_ds(task, acc):
             continue
           if np.any(g != 0):
             acc.nontrivial += 1
-          ls = runner.leaf_stats(s2, n)
+          ls = runner.leaf_stats(s if mode == "sharded" else s2, n)
           if len(ls["preconditioners"]) != len(lf.stats):
             acc.outcome("viol_exclusion_rule")
             acc.violation(sig + "|excluded", "leaf %s of shape %s holds %d "
